@@ -152,6 +152,7 @@ ValOf(d, p) == Dims[d].vals[p]
 Valued(d)   == {p \in ValidPos(d) : ValOf(d, p) # NA}
 HasVals(d)  == Valued(d) # {}
 NoneV == [k |-> "none", nd |-> 0, v |-> 0]
+OpenV == [k |-> "any", nd |-> 0, v |-> 0]     \* the statement leaves the output open
 
 \* weighted count of vector element v (on dimension dv) in opposing category p
 VecCount(tk, dv, v, p) ==
@@ -222,7 +223,7 @@ ScaleMarginMean(tk, dv) ==
 ScaleMarginMedian(tk, dv) ==
   IF ~HasVals(dv) THEN NoneV
   ELSE LET c == MarginCnt(tk, dv)  m == MedianOf(dv, c) IN
-       IF IsNaN(m) THEN NoneV ELSE Num0(m)
+       IF m = AnyVal THEN OpenV ELSE IF IsNaN(m) THEN NoneV ELSE Num0(m)
 
 \* strand: the single variable's own values
 SScaleCnt(tk) == [p \in Valued(DimR) |-> Count(tk, BaseEl(DimR, p), NoEl, WS)]
